@@ -406,6 +406,36 @@ def _sql_filter_sites(cls):
             for i, s in enumerate(srcs):
                 if s.endswith(".subspace_byte_mask()") and i > len(srcs) - 3:
                     raise ExtractError(f"IDManager: SQL filter parameters changed: `{', '.join(srcs)}`")
+    # the triple hoisted into a local of the method (`p = (id_space.subspace_byte_mask(), begin, end - 1)`, assigned once, after
+    # `begin, end = ...`, none of the names involved assigned again): every use of p as the parameters of an execute() call —
+    # `execute(sql, p)` or `execute(sql, (x, *p))` — is a triple; the definition itself is not
+    for fn in cls.body:
+        if not isinstance(fn, ast.FunctionDef):
+            continue
+        for i, st in enumerate(fn.body):
+            if not (isinstance(st, ast.Assign) and len(st.targets) == 1 and isinstance(st.targets[0], ast.Name) and isinstance(st.value, ast.Tuple)
+                    and [ast.unparse(e) for e in st.value.elts] == ["id_space.subspace_byte_mask()", "begin", "end - 1"]):
+                continue
+            name = st.targets[0].id
+            stores = {}
+            for n in ast.walk(fn):
+                if isinstance(n, ast.Name) and isinstance(n.ctx, ast.Store):
+                    stores[n.id] = stores.get(n.id, 0) + 1
+            before = [ast.unparse(x) for x in fn.body[:i]]
+            expect(stores.get(name) == 1 and stores.get("begin") == 1 and stores.get("end") == 1 and "id_space" not in stores
+                   and "begin, end = id_space.subspace_masked_range(subspace)" in before,
+                   f"IDManager.{fn.name}: hoisted filter parameters `{name}` are not a single assignment after the masked range")
+            uses = 0
+            for n in ast.walk(fn):
+                if isinstance(n, ast.Call) and isinstance(n.func, ast.Attribute) and n.func.attr == "execute" and len(n.args) == 2:
+                    a = n.args[1]
+                    if isinstance(a, ast.Name) and a.id == name:
+                        uses += 1
+                    elif isinstance(a, ast.Tuple) and a.elts and isinstance(a.elts[-1], ast.Starred) and isinstance(a.elts[-1].value, ast.Name) and a.elts[-1].value.id == name:
+                        uses += 1
+            loads = sum(1 for n in ast.walk(fn) if isinstance(n, ast.Name) and n.id == name and isinstance(n.ctx, ast.Load))
+            expect(uses == loads and uses > 0, f"IDManager.{fn.name}: `{name}` is used other than as the parameters of execute()")
+            n_triples += uses - 1
     expect(n_filters > 0 and n_filters == n_triples, f"IDManager: {n_filters} SQL range filters but {n_triples} (mask, begin, end - 1) parameter triples")
     # `begin, end = id_space.subspace_masked_range(subspace)` in every method that uses the filter
     for fn in cls.body:
@@ -434,7 +464,14 @@ def gen_idspace(repo, out):
             expect([ast.unparse(d) for d in funcs["from_string"].decorator_list] == ["staticmethod"], "IDSpace.from_string: decorator")
             table = _from_string_table(funcs["from_string"])
         want = set(efuncs) | {n for (c, n) in GENERIC if c == exp_cls.name}
-        expect(set(funcs) == want, f"{cls.name}: set of methods changed: {sorted(set(funcs) ^ want)}")
+        # private helpers (a rewrite extracted one) are tolerated: if a translated method calls one, harness/gen_pytrans.py
+        # translates it as well and Props/C10tr.v must check (soft tie below); the pinned string functions cannot call one
+        # without failing their own shape comparison
+        extras = sorted(set(funcs) - want)
+        expect(not (want - set(funcs)) and all(x.startswith("_") and not x.startswith("__") for x in extras),
+               f"{cls.name}: set of methods changed: {sorted(set(funcs) ^ want)}")
+        for x in extras:
+            soft.append((f"{cls.name}.{x}", "private helper method that is not in the pinned set"))
         expect(list(attrs) == list(eattrs), f"{cls.name}: fields changed: {list(attrs)}")
         for name in eattrs:
             _match(attrs[name], eattrs[name], env, f"{cls.name}.{name} default")
